@@ -44,6 +44,7 @@ import ZygoVerif.Proofs.C01VM
 import ZygoVerif.Generated.PanicSites
 import ZygoVerif.Generated.StackSites
 import ZygoVerif.Generated.GenDispatch
+import ZygoVerif.Generated.CachedFields
 import ZygoVerif.Props.C04Err
 namespace ZygoVerif.C01
 open ZygoVerif.Parser ZygoVerif.Lexer ZygoVerif.GenSites
@@ -169,6 +170,28 @@ def pushOk (s : Generated.StackSites.PushSite) : Bool :=
   else false
 
 theorem stack_pushes_typed : Generated.StackSites.pushSites.all pushOk = true := by decide +kernel
+
+/-! ### §1b Cached fields of values
+
+`SexpArray.Typ` caches the slice type derived from the first element and nothing invalidates
+it: after `aset` / `{a[0] = x}` / `concat` the cache can describe an element that is no longer
+there, and copies (rest, slice, append) carry it along. Code that reads the cached type and
+then assumes something about the elements (typed, non-nil) panics after such a write — at VM
+level (`Stack.BindSymbol`), outside any recover (seeded change C01-m3; the value-history
+stream of the `crash` channel is what finds it). The regenerated table lists the cache
+fields and the functions after which a cache can be stale; both lists are pinned, so a new
+cache field or a new stale-capable writer is a proof break until it has been looked at. -/
+
+def KnownCachedFields : List String := ["SexpArray.Typ"]
+
+def KnownStaleWriters : List String :=
+  ["SexpArray.Typ stale after ArrayAccessFunction", "SexpArray.Typ stale after ConcatArray",
+   "SexpArray.Typ stale after FuncBuilder", "SexpArray.Typ stale after SexpArraySelector.AssignToSelection",
+   "SexpArray.Typ stale after SexpHash.SetMethodList"]
+
+theorem cached_fields_known :
+    subseq Generated.CachedFields.cachedFields KnownCachedFields = true ∧
+    subseq Generated.CachedFields.staleCapable KnownStaleWriters = true := by decide +kernel
 
 /-! ## §2 Parser: the `{` look-ahead -/
 
